@@ -209,7 +209,7 @@ pub fn gen_scn(rng: &mut Rng, exec: u64, prop: Prop, o: &GenOpts) -> Scn {
       s.threads = *rng.pick(&[2usize, 2, 3, 3, 4, 4, 5, 6, 8, 12]);
       s.keys = rng.range(3, 20);
       s.ops = rng.range(20, 160) as usize;
-      s.cache.shards = o.shards.unwrap_or(*rng.pick(&[1usize, 2, 8]));
+      s.cache.shards = o.shards.unwrap_or(*rng.pick(&[1usize, 2, 3, 6, 8]));
       s.cache.capacity = match rng.below(3) {
         0 => Some(rng.range(3, 8)),
         1 => Some(rng.range(20, 60)),
@@ -238,7 +238,7 @@ pub fn gen_scn(rng: &mut Rng, exec: u64, prop: Prop, o: &GenOpts) -> Scn {
       s.threads = *rng.pick(&[2usize, 2, 3, 4, 4, 6, 8]);
       s.keys = rng.range(8, 48);
       s.ops = rng.range(30, 220) as usize;
-      s.cache.shards = o.shards.unwrap_or(*rng.pick(&[1usize, 4, 16]));
+      s.cache.shards = o.shards.unwrap_or(*rng.pick(&[1usize, 4, 5, 16]));
       // a quarter of the runs can never reach the capacity: no capacity eviction at all
       s.cache.capacity = Some(if rng.chance(1, 4) { 1_000_000 } else { rng.range(5, 120) });
       s.max_cost = rng.range(1, 8);
@@ -278,7 +278,7 @@ pub fn gen_scn(rng: &mut Rng, exec: u64, prop: Prop, o: &GenOpts) -> Scn {
     }
     Prop::C16 => {
       s.listener = true;
-      s.cache.shards = o.shards.unwrap_or(*rng.pick(&[1usize, 2, 4, 8]));
+      s.cache.shards = o.shards.unwrap_or(*rng.pick(&[1usize, 2, 4, 6, 8]));
       let keepup = match o.mode {
         Some(m) => m == Mode::KeepUp,
         None => exec % 2 == 0,
